@@ -174,6 +174,7 @@ func shorten(s string) string {
 
 func c06(r *core.Report) {
 	lookupFolding(r, "C06.lookup")
+	requiredExemption(r, "C06.reqexempt")
 	c06Streams(r)
 	p := r.Prog
 	pk := p.Pkg("openapi3filter")
@@ -943,6 +944,83 @@ func c06Streams(r *core.Report) {
 		}
 		if k == 0 {
 			core.Fail("no body decoder using json.NewDecoder found in openapi3filter")
+		}
+	})
+}
+
+// requiredExemption: a read-only property is not something a request can carry, a write-only
+// property not something a response can: `required` does not ask for them on that side. That is a
+// fact about the property and the direction, not about the options: switching the read-only /
+// write-only *check* off must not bring the requirement back.
+func requiredExemption(r *core.Report, rule string) {
+	p := r.Prog
+	info := p.Pkg("openapi3").TypesInfo
+	r.RunRule(rule, "the `required` loop of visitJSONObject skips a missing property exactly by direction and annotation: inside the loop over schema.Required there is a `continue` whose conditions are the property's ReadOnly and settings.asreq, and one with WriteOnly and settings.asrep, and neither depends on anything else (not on the options that disable the readOnly/writeOnly check, not on a set computed under them)", 2, func() {
+		fd := p.DeclOf("openapi3", "Schema.visitJSONObject")
+		var loop *ast.RangeStmt
+		ast.Inspect(fd.Body, func(nd ast.Node) bool {
+			if rs, ok := nd.(*ast.RangeStmt); ok {
+				if f := core.FieldSel(info, rs.X); f != nil && f.Name() == "Required" {
+					loop = rs
+				}
+			}
+			return true
+		})
+		if loop == nil {
+			core.Fail("visitJSONObject: no loop over schema.Required")
+		}
+		type want struct{ annot, dir string }
+		for _, w := range []want{{"ReadOnly", "asreq"}, {"WriteOnly", "asrep"}} {
+			key := "reqexempt:" + w.annot + "/" + w.dir
+			found, foreign := false, ""
+			ast.Inspect(loop.Body, func(nd ast.Node) bool {
+				br, ok := nd.(*ast.BranchStmt)
+				if !ok || br.Tok != token.CONTINUE {
+					return true
+				}
+				hasAnnot, hasDir := false, false
+				var others []string
+				for _, a := range core.Atoms(core.GuardsAt(info, loop.Body, br)) {
+					mentions := func(name string) bool {
+						m := false
+						ast.Inspect(a.Expr, func(k ast.Node) bool {
+							if sel, ok := k.(*ast.SelectorExpr); ok && sel.Sel.Name == name {
+								m = true
+							}
+							return true
+						})
+						return m
+					}
+					switch {
+					case mentions(w.annot) && a.Pos:
+						hasAnnot = true
+					case mentions(w.dir) && a.Pos:
+						hasDir = true
+					default:
+						s := core.ExprStr(a.Expr)
+						// the lookups that lead to the property (value[k] absent, schema.Properties[k] != nil)
+						if strings.Contains(s, "!= nil") || s == "ok" || strings.Contains(s, "value[") {
+							continue
+						}
+						others = append(others, s)
+					}
+				}
+				if hasAnnot && hasDir {
+					found = true
+					if len(others) > 0 {
+						foreign = strings.Join(others, ", ")
+					}
+				}
+				return true
+			})
+			switch {
+			case !found:
+				r.Bad(key, p.Pos(loop.Pos()), fmt.Sprintf("the `required` loop has no `continue` under the property's %s and settings.%s: whether a missing %s property is demanded is decided by something else (a set computed elsewhere, an option), so it is demanded — or waived — for the wrong requests", w.annot, w.dir, w.annot))
+			case foreign != "":
+				r.Bad(key, p.Pos(loop.Pos()), fmt.Sprintf("the exemption of a missing %s property from `required` also depends on %s", w.annot, foreign))
+			default:
+				r.OK(key, p.Pos(loop.Pos()), "continue under "+w.annot+" && settings."+w.dir)
+			}
 		}
 	})
 }
